@@ -28,6 +28,11 @@ CHECKS = {
   text="Every clause of the enumerated families is added to a fresh real interpreter by loading and by assertz (after bindings made in the asserting query) and then observed from later queries: clause/2 must answer a variant of the source with those bindings applied, calls with every argument pattern must behave as the reference machine says the source clause behaves, and the compiled instruction list, decompiled by an inverse of the compiler written for the harness, must denote the source term (same head arguments, body goals, variable sharing). The number of distinct variables is swept 0..40.",
   note="Trusted: the decompiler (h/decompile.go), the reference machine and the harness reader used for bootstrap.pl. The accessor is injected at build time with -overlay (build tag verif); nothing is committed to /repo for it.",
   design="DESIGN.md §3 C10"),
+ "C11": dict(
+  technique="bounded-exhaustive enumeration of fact bases with every combination of witness shapes x predicate x template x ^-quantification x instance argument (plus nested and pre-bound queries) on the real interpreter; answers compared with a literal ISO 8.10 reference (findall as sequence, bagof/setof groups as multiset)",
+  text="Every fact base of up to 2 (quick) / 3 (thorough) facts over a witness domain with ground, partially bound, variant and non-variant clause-local variables is queried with findall/bagof/setof under every template, ^-set, goal shape and instance argument; the complete answer set (groups, their contents and order inside a group, the bindings of the free variables, goal variables left unbound) must equal the reference's.",
+  note="Trusted: the reference all-solutions algorithm (ISO 8.10.1-3, 7.1.1.4), self-checked against the ISO examples. Group order is deliberately not compared.",
+  design="DESIGN.md §3 C11"),
  "C07": dict(
   technique="bounded-exhaustive enumeration of the complete boundary-value grid (all functors x all operand pairs, all depth-2 trees over a reduced grid) on the real evaluator, each case compared with a math/big + IEEE-754 reference model",
   text="Every evaluable functor of the statement is run on the complete cross product of an integer and a float boundary grid (all int/float combinations), all shift counts, all six comparisons, and all depth-2 trees over a reduced grid; each result is compared with an exact reference (math/big integers, IEEE-754 doubles). Exhaustive within the grid: a wrong boundary test, a float detour or a sign slip in any of the per-type helpers shows up as a concrete expression.",
